@@ -15,7 +15,7 @@ def gen_config(rng, tier, versions=(0, 0, 1, 2), dims=(2, 2, 2, 3, 3, 4), bounda
         lmin, lmax = rng.choice([(2, 4), (1, 4), (3, 4), (3, 5)])      # high start levels / large level differences
     if d == 4:
         lmin, lmax = rng.choice([(1, 2), (2, 3)])
-    kind, a, b = hooks.gen_box(rng, d, ["unit", "unit", "shifted", "negative", "aniso", "dyadic", "tiny", "huge"])
+    kind, a, b = hooks.gen_box(rng, d, ["unit", "unit", "shifted", "negative", "aniso", "dyadic", "tiny", "huge", "integer"])
     cap = {2: 12, 3: 7, 4: 4}[d] if tier == "quick" else {2: 30, 3: 14, 4: 7}[d]
     cfg = {
         "d": d, "lmin": lmin, "lmax": lmax, "a": a, "b": b, "box": kind,
@@ -30,6 +30,8 @@ def gen_config(rng, tier, versions=(0, 0, 1, 2), dims=(2, 2, 2, 3, 3, 4), bounda
         "errseed": rng.randrange(2 ** 31),
     }
     cfg["recalc"] = rng.choice([None, None, None, 1, 3, 10])   # recalculate_frequently with this many refinements per restart
+    # how the caller hands over the domain: float arrays (default), lists / tuples, python ints or integer arrays on whole-number boxes
+    cfg["input_mode"] = rng.choice(hooks.INPUT_MODES) if (kind == "integer" or rng.random() < 0.1) else "float_array"
     if cfg["profile"] == "equal":
         cfg["steps"] = min(cfg["steps"], 3 if d == 2 else 2)
     return cfg
@@ -37,7 +39,7 @@ def gen_config(rng, tier, versions=(0, 0, 1, 2), dims=(2, 2, 2, 3, 3, 4), bounda
 
 def make_grid(cfg):
     from sparseSpACE import Grid as G
-    a, b = np.array(cfg["a"], dtype=float), np.array(cfg["b"], dtype=float)
+    a, b = hooks.typed(cfg["a"], cfg.get("input_mode", "float_array")), hooks.typed(cfg["b"], cfg.get("input_mode", "float_array"))
     kind = cfg.get("grid", "Trapezoidal")
     if kind == "ClenshawCurtis":
         return G.ClenshawCurtisGrid(a=a, b=b, boundary=True)
@@ -54,7 +56,7 @@ def make_grid(cfg):
 def build(cfg, f, observer, reference=None, norm=np.inf):
     from sparseSpACE.spatiallyAdaptiveExtendSplit import SpatiallyAdaptiveExtendScheme
     from sparseSpACE.GridOperation import Integration
-    a, b = np.array(cfg["a"], dtype=float), np.array(cfg["b"], dtype=float)
+    a, b = hooks.typed(cfg["a"], cfg.get("input_mode", "float_array")), hooks.typed(cfg["b"], cfg.get("input_mode", "float_array"))
     grid = make_grid(cfg)
     op = Integration(f=f, grid=grid, dim=cfg["d"], reference_solution=reference, print_level=100, log_level=100)
     cls = hooks.observed(SpatiallyAdaptiveExtendScheme)
